@@ -1,0 +1,29 @@
+//go:build verif
+
+package reload
+
+import (
+	"context"
+	"time"
+)
+
+// Verification hooks for property C38 (no logic: type alias, constants, one forwarding call).
+
+// C38EventWatcher is the watcher interface the loop consumes; the harness supplies a scripted one.
+type C38EventWatcher = eventWatcher
+
+const (
+	C38DebounceDuration       = debounceDuration
+	C38ReconciliationInterval = reconciliationInterval
+)
+
+// C38WatchWithOptions forwards to watchWithOptions with an injected watcher factory, reconcile
+// interval and attach notification.
+func C38WatchWithOptions(ctx context.Context, path string, cb func() error, reconcileInterval time.Duration,
+	newWatcher func(string) (C38EventWatcher, error), attached func()) error {
+	return watchWithOptions(ctx, path, cb, watchOptions{
+		reconcileInterval: reconcileInterval,
+		newWatcher:        newWatcher,
+		attached:          attached,
+	})
+}
